@@ -423,14 +423,17 @@ def r9_5(ctx: Ctx, L: Loop, rule="R9.5"):
     ctx.ob(rule, f, init[-1] if init else "counter initialisation", bool(init) and const_int(init[-1].value) == 0,
            "the counter starts at 0", node=init[-1] if init else f.node)
     # best-energy variable: compared with the held energy by a strict <
-    paths = enum_paths(L.loop.body)
+    from ..cfg import resolve_flags
+    paths = resolve_flags(enum_paths(L.loop.body))
     ctx.extra["loop_body_paths"] = len(paths)
     ctx.floor(rule, len(paths), 4, "paths of the loop body")
     best = None
     from ..cfg import canon_test, ctext
-    for n in walk_no_nested(L.acc_if):
-        if isinstance(n, ast.If) and n is not L.acc_if:
-            t_ = n.test
+    cmp_sites = [n.test for n in walk_no_nested(L.acc_if) if isinstance(n, ast.If) and n is not L.acc_if] + \
+        [n.value for n in walk_no_nested(L.loop) if isinstance(n, ast.Assign) and isinstance(n.value, (ast.Compare, ast.UnaryOp))]
+    for t0_ in cmp_sites:
+        if True:
+            t_ = t0_
             while isinstance(t_, ast.UnaryOp) and isinstance(t_.op, ast.Not):
                 t_ = t_.operand
             if isinstance(t_, ast.Compare) and len(t_.ops) == 1 and isinstance(t_.left, ast.Name) and isinstance(t_.comparators[0], ast.Name):
@@ -438,7 +441,7 @@ def r9_5(ctx: Ctx, L: Loop, rule="R9.5"):
                 if L.e0 in names_ and names_[0] != names_[1]:
                     other_ = [x for x in names_ if x != L.e0][0]
                     # the held energy is never NaN (R9.6 rejects NaN proposals), so not (a >= b) and a < b agree here
-                    if canon_test(n.test)[0] == ctext("%s < %s" % (L.e0, other_))[0]:
+                    if canon_test(t0_)[0] == ctext("%s < %s" % (L.e0, other_))[0]:
                         best = other_
     for i, p in enumerate(paths):
         resets = [s for s in p.stmts() if isinstance(s, ast.Assign) and norm(s.targets[0]) == L.counter]
@@ -494,11 +497,9 @@ def r9_6(ctx: Ctx, L: Loop, rule="R9.6"):
     ctx.ob(rule, acc, "default acceptance = %s" % norm(dval), isinstance(dval, ast.Constant) and dval.value == 0.01 and len(ps) == 3,
            "the acceptance constant is 0.01", node=acc.node)
     e0, e1, a = ps[0], ps[1], ps[2] if len(ps) > 2 else None
-    paths = [p for p in enum_paths(acc.node.body) if p.end == "return"]
+    from ..cfg import resolve_flags as _rf
+    paths = [p for p in _rf(enum_paths(acc.node.body)) if p.end in ("return",)]
     env: Dict[str, ast.AST] = {}
-    for s in acc.node.body:
-        if isinstance(s, ast.Assign) and isinstance(s.targets[0], ast.Name):
-            env[s.targets[0].id] = s.value
 
     def expand(e, depth=4):
         class T(ast.NodeTransformer):
@@ -510,9 +511,18 @@ def r9_6(ctx: Ctx, L: Loop, rule="R9.6"):
         return T().visit(copy.deepcopy(e))
     n_always = n_draw = 0
     for p in paths:
+        # the values of the locals on this path (the last assignment before the return wins)
+        env.clear()
+        for s_ in p.stmts():
+            if isinstance(s_, ast.Assign) and isinstance(s_.targets[0], ast.Name):
+                env[s_.targets[0].id] = expand(s_.value) if any(isinstance(x_, ast.Name) and x_.id == s_.targets[0].id for x_ in ast.walk(s_.value)) else s_.value
         ret = expand(p.end_node.value)
         draws = [x for x in ast.walk(ret) if isinstance(x, ast.Call) and "random" in norm(x.func)]
-        conds = [(norm(expand(t)), o) for t, o in p.conds()]
+        conds = []
+        for t, o in p.conds():
+            while isinstance(t, ast.UnaryOp) and isinstance(t.op, ast.Not):
+                t, o = t.operand, not o
+            conds.append((norm(expand(t)), o))
         better = any((txt.replace(" ", "") in ("%s/%s>=1" % (e0, e1), "%s<=%s" % (e1, e0), "%s>=%s" % (e0, e1),
                                                "1<=%s/%s" % (e0, e1))) and o for txt, o in conds)
         if better:
